@@ -166,7 +166,7 @@ def symbolic(rep, ctx, gen):
     view = gen.view
     thorough = ctx.tier == "thorough"
     tsym = sympy.Symbol("t")
-    parents = gen.radio if thorough else [gen.deep[0], gen.deep[37]] + gen.r.sample(gen.radio, 3)
+    parents = ([gen.deep[0], gen.deep[37]] + gen.r.sample(gen.radio, 120)) if thorough else [gen.deep[0], gen.deep[37]] + gen.r.sample(gen.radio, 3)
     if not ctx.build_ok:
         return
     orc = LeanOracle()
